@@ -36,6 +36,11 @@ func ReadResponse(r io.Reader, apiKey ApiKey, apiVersion int16) (correlationID i
 		return
 	}
 
+	if size < 0 {
+		err = fmt.Errorf("invalid negative frame size: %d", size)
+		return
+	}
+
 	d.remain = int(size)
 	correlationID = d.readInt32()
 	if err = d.err; err != nil {
@@ -62,13 +67,13 @@ func ReadResponse(r io.Reader, apiKey ApiKey, apiVersion int16) (correlationID i
 
 	if res.flexible {
 		// In the flexible case, there's a tag buffer at the end of the response header
-		taggedCount := int(d.readUnsignedVarInt())
-		for i := 0; i < taggedCount; i++ {
+		taggedCount := d.readTaggedFieldCount()
+		for i := 0; i < taggedCount && d.err == nil; i++ {
 			d.readUnsignedVarInt() // tagID
-			size := d.readUnsignedVarInt()
+			size := d.readTaggedFieldSize()
 
 			// Just throw away the values for now
-			d.read(int(size))
+			d.read(size)
 		}
 	}
 
